@@ -16,7 +16,7 @@ import Mathlib.Data.List.Forall2
 
 set_option linter.unusedSectionVars false
 
-namespace LNN
+namespace LNN.Hull
 
 variable {α : Type} [Field α] [LinearOrder α] [IsStrictOrderedRing α]
 
@@ -127,18 +127,18 @@ theorem and_feasible_iff (b L U : α) (ops : List (Opd α)) (hwf : BoxWf ops) (h
 /-! ### pinning one operand -/
 
 /-- the operand with its box collapsed to the single value `x` -/
-def Opd.pin (o : Opd α) (x : α) : Opd α := ⟨o.w, x, x⟩
+def pinOpd (o : Opd α) (x : α) : Opd α := ⟨o.w, x, x⟩
 
 theorem inBox_pin_iff (pre post : List (Opd α)) (o : Opd α) (x : α) (hx : o.lo ≤ x ∧ x ≤ o.hi)
     (xs : List α) :
-    InBox (pre ++ o.pin x :: post) xs ↔ InBox (pre ++ o :: post) xs ∧ xs[pre.length]? = some x := by
+    InBox (pre ++ pinOpd o x :: post) xs ↔ InBox (pre ++ o :: post) xs ∧ xs[pre.length]? = some x := by
   unfold InBox
   induction pre generalizing xs with
   | nil =>
     cases xs with
     | nil => simp
     | cons y ys =>
-      simp only [List.nil_append, List.forall₂_cons, Opd.pin, List.length_nil, List.getElem?_cons_zero,
+      simp only [List.nil_append, List.forall₂_cons, pinOpd, List.length_nil, List.getElem?_cons_zero,
         Option.some.injEq]
       constructor
       · rintro ⟨⟨hw, h1, h2⟩, hr⟩
@@ -155,26 +155,26 @@ theorem inBox_pin_iff (pre post : List (Opd α)) (o : Opd α) (x : α) (hx : o.l
       tauto
 
 theorem wsum_pin (pre post : List (Opd α)) (o : Opd α) (x : α) (xs : List α) :
-    wsum (pre ++ o.pin x :: post) xs = wsum (pre ++ o :: post) xs := by
+    wsum (pre ++ pinOpd o x :: post) xs = wsum (pre ++ o :: post) xs := by
   unfold wsum
   induction pre generalizing xs with
-  | nil => cases xs <;> simp [Opd.pin]
+  | nil => cases xs <;> simp [pinOpd]
   | cons a pre ih => cases xs <;> simp [ih]
 
 theorem sumHi_pin (pre post : List (Opd α)) (o : Opd α) (x : α) :
-    ((pre ++ o.pin x :: post).map termHi).sum
+    ((pre ++ pinOpd o x :: post).map termHi).sum
       = o.w * (1 - x) + (((pre ++ o :: post).map termHi).sum - termHi o) := by
-  simp only [List.map_append, List.map_cons, List.sum_append, List.sum_cons, Opd.pin, termHi]
+  simp only [List.map_append, List.map_cons, List.sum_append, List.sum_cons, pinOpd, termHi]
   ring
 
 theorem sumLo_pin (pre post : List (Opd α)) (o : Opd α) (x : α) :
-    ((pre ++ o.pin x :: post).map termLo).sum
+    ((pre ++ pinOpd o x :: post).map termLo).sum
       = o.w * (1 - x) + (((pre ++ o :: post).map termLo).sum - termLo o) := by
-  simp only [List.map_append, List.map_cons, List.sum_append, List.sum_cons, Opd.pin, termLo]
+  simp only [List.map_append, List.map_cons, List.sum_append, List.sum_cons, pinOpd, termLo]
   ring
 
 theorem boxWf_pin (pre post : List (Opd α)) (o : Opd α) (x : α) (h : BoxWf (pre ++ o :: post)) :
-    BoxWf (pre ++ o.pin x :: post) := by
+    BoxWf (pre ++ pinOpd o x :: post) := by
   intro o' ho'
   simp only [List.mem_append, List.mem_cons] at ho'
   rcases ho' with h1 | rfl | h1
@@ -207,7 +207,7 @@ theorem and_slice_iff (b L U : α) (pre post : List (Opd α)) (o : Opd α)
       ↔ (o.lo ≤ x ∧ x ≤ o.hi ∧
           L ≤ clamp01 (b - o.w * (1 - x) - (((pre ++ o :: post).map termHi).sum - termHi o)) ∧
           clamp01 (b - o.w * (1 - x) - (((pre ++ o :: post).map termLo).sum - termLo o)) ≤ U) := by
-  have key := and_feasible_iff b L U (pre ++ o.pin x :: post) (boxWf_pin pre post o x hwf) hLU
+  have key := and_feasible_iff b L U (pre ++ pinOpd o x :: post) (boxWf_pin pre post o x hwf) hLU
   unfold andUp at key
   simp only [sumHi_pin, sumLo_pin, andVal, andPre, wsum_pin] at key
   rw [← sub_sub, ← sub_sub] at key
@@ -523,4 +523,4 @@ theorem isContra_one_of_crossed (r : Bounds α) (h0 : 0 ≤ r.hi) (h1 : r.lo ≤
   unfold isContra
   simp [h, hlo1, hhi5]
 
-end LNN
+end LNN.Hull
